@@ -1061,6 +1061,13 @@ class ArrayReduction(Reduction):
             return result
 
 
+def _nonempty_moments(parts):
+    # The mean of a partition without rows is 0 / 0, which turns the plain
+    # sums of moment_combine / moment_agg into NaN. Such a partition does
+    # not contribute anything, so leave it out (but keep at least one part).
+    return [part for part in parts if np.any(part["n"])] or parts[:1]
+
+
 class Var(ArrayReduction):
     # Uses the parallel version of Welford's online algorithm (Chan 79')
     # (http://i.stanford.edu/pub/cstr/reports/cs/tr/79/773/CS-TR-79-773.pdf)
@@ -1105,6 +1112,7 @@ class Var(ArrayReduction):
 
     @classmethod
     def reduction_combine(cls, parts, skipna):
+        parts = _nonempty_moments(parts)
         if skipna:
             return moment_combine(parts, sum=np.nansum, axis=(0,))
         else:
@@ -1112,6 +1120,7 @@ class Var(ArrayReduction):
 
     @classmethod
     def reduction_aggregate(cls, vals, ddof, skipna):
+        vals = _nonempty_moments(vals)
         if skipna:
             result = moment_agg(vals, sum=np.nansum, ddof=ddof, axis=(0,))
         else:
@@ -1150,10 +1159,12 @@ class Moment(ArrayReduction):
 
     @classmethod
     def reduction_combine(cls, parts, order):
+        parts = _nonempty_moments(parts)
         return moment_combine(parts, order=order, axis=(0,))
 
     @classmethod
     def reduction_aggregate(cls, vals, order):
+        vals = _nonempty_moments(vals)
         result = moment_agg(vals, order=order, axis=(0,))
         return result
 
